@@ -60,6 +60,9 @@ def step_program(sd):
         prog.append(["read", p.replace("${n}", "$1")])
     for n in sd.get("env", []):
         prog.append(["env", n])
+    for n in sorted(sd.get("env_overrides") or {}):
+        # a step-specific override: read, not declared (the director forbids declaring it)
+        prog.append(["env", n])
     if sd.get("variant"):
         # A different script body that also changes what the step computes.
         prog.append(["env", "VERIF_VARIANT_" + str(sd["variant"])])
@@ -169,7 +172,8 @@ def plan_program(spec, plan_path):
             body.append(["for_each", {"cmd": cmd, "inp": [sd["script"], *sd["inp"]],
                                       "out": list(sd["out"]), "vol": list(sd.get("vol", [])),
                                       "env": list(sd.get("env", [])), "workdir": sd["workdir"],
-                                      "need": sd.get("need", "default")}])
+                                      "need": sd.get("need", "default"),
+                                      "env_overrides": dict(sd.get("env_overrides") or {})}])
         elif kind == "static_extra":
             body.append(["static", list(item[1])])
         elif kind == "glob_only":
@@ -462,7 +466,7 @@ EDIT_KINDS = [
     "change_env", "drop_subplan", "revert_env", "revert_env",
     "modify_step_inputs", "rename_output", "toggle_optional", "toggle_vol", "move_step",
     "drop_subplan", "readd_subplan", "restyle_static", "change_env", "change_script",
-    "toggle_fail", "toggle_amend", "noop",
+    "toggle_fail", "toggle_amend", "noop", "toggle_override",
 ]
 
 
@@ -603,6 +607,20 @@ def edits(draw, spec, stash, kinds=None):
         d = draw(st.sampled_from(sorted(spec["static_style"])))
         spec["static_style"][d] = draw(st.sampled_from(["files", "tree", "pattern"]))
         desc += [d, spec["static_style"][d]]
+    elif kind == "toggle_override" and names:
+        # add, change or remove the step-specific environment overrides of a step
+        n = draw(st.sampled_from(names))
+        sd = spec["steps"][n]
+        cur = dict(sd.get("env_overrides") or {})
+        if cur and draw(st.booleans()):
+            sd["env_overrides"] = {}
+            desc += [n, "removed"]
+        else:
+            cur["VERIF_O"] = draw(st.sampled_from(["1", "2"]))
+            if draw(st.integers(0, 2)) == 0:
+                cur["VERIF_P"] = "p"
+            sd["env_overrides"] = cur
+            desc += [n, sorted(cur.items())]
     elif kind == "change_env":
         for n in sorted(set(draw(st.lists(st.sampled_from(ENV_NAMES), min_size=1, max_size=2)))):
             spec["env"][n] = draw(st.sampled_from([None, "1", "x", "y"]))
@@ -664,7 +682,8 @@ def build_config(draw, final=False, resources=None):
 FOCUS = {
     # feature-focused campaigns: dense in one family of edits
     "env": {"kinds": ["change_env", "change_env", "revert_env", "revert_env", "change_source",
-                      "noop", "change_script"], "tweak": "env"},
+                      "noop", "change_script", "toggle_override", "toggle_override"],
+            "tweak": "env"},
     "glob": {"kinds": ["add_source", "add_source", "delete_source", "change_source",
                        "restyle_static", "noop"], "tweak": "glob"},
     "optional": {"kinds": ["toggle_optional", "toggle_amend", "drop_step", "readd_step",
